@@ -243,7 +243,7 @@ func c53RunPoolCase(cfg c53PoolCfg, steps []c53PStep) (fail c53POut, reused, spa
 func TestVerif_C53_Pools(t *testing.T) {
 	r := vk.Start(t, "c53_pools", "exploration", c53P)
 	defer r.Finish()
-	r.Rule(c53P, "every history of <=L (size, action) steps, action in {Get+hold, Get+dirty+Put, Get+dirty+Put shrunk prefix, Put of dirty caller memory}, size in {0,1,2,page-1,page,page+1, every tier-1/+0/+1, largest tier+page, +page+1}, on a fresh pool of every listed configuration (L = 2 quick, where steps above 64 KiB are Get+hold/Get+Put only and are paired only with another such step; L = 3 thorough, 2 for configurations with tiers above 64 KiB, where steps above 64 KiB are paired with another such step or with sizes 0/page); after each Get: len==n, cap>=n, no overlap with buffers still handed out, all bytes zero for zeroing pools. Non-trivial = histories in which a Get was served from memory that had been put back dirty.")
+	r.Rule(c53P, "every history of <=L (size, action) steps, action in {Get+hold, Get+dirty+Put, Get+dirty+Put shrunk prefix, Put of dirty caller memory}, size in {0,1,2,page-1,page,page+1, every tier-1/+0/+1, largest tier+page, +page+1}, on a fresh pool of every listed configuration (L = 2 quick, where steps above 64 KiB are Get+hold/Get+Put only and are paired only with another such step (tier-1/+0/+1 only); L = 3 thorough, 2 for configurations with tiers above 64 KiB, where steps above 64 KiB are paired with another such step or with sizes 0/page); after each Get: len==n, cap>=n, no overlap with buffers still handed out, all bytes zero for zeroing pools. Non-trivial = histories in which a Get was served from memory that had been put back dirty.")
 	r.Assume(c53P, "sync.Pool may drop or keep a returned buffer; the verdict does not depend on it, the measured reuse count does")
 	r.Assume(c53P, "only the first len bytes of a Get result are required to be zero; dirty spare capacity is recorded as an outcome")
 	cfgs := c53PoolCfgs()
@@ -327,6 +327,9 @@ func TestVerif_C53_Pools(t *testing.T) {
 				}
 				if !big(other) && (!r.Thorough() || !small(other)) {
 					return
+				}
+				if !r.Thorough() && (cur[0].Size > 1<<20+1 || cur[1].Size > 1<<20+1) {
+					return // quick tier: sizes one page above the megabyte tier only as single steps
 				}
 			}
 			idx++
